@@ -363,6 +363,9 @@ func NewMultiaddrWithValue(ma multiaddr.Multiaddr) Multiaddr {
 
 // MarshalJSON returns a JSON-formatted multiaddress.
 func (maddr Multiaddr) MarshalJSON() ([]byte, error) {
+	if maddr.Multiaddr == nil { // zero value, i.e. decoded from a nil element
+		return []byte("null"), nil
+	}
 	return maddr.Multiaddr.MarshalJSON()
 }
 
@@ -384,6 +387,9 @@ func (maddr *Multiaddr) UnmarshalJSON(data []byte) error {
 
 // MarshalBinary returs the bytes of the wrapped multiaddress.
 func (maddr Multiaddr) MarshalBinary() ([]byte, error) {
+	if maddr.Multiaddr == nil { // zero value, i.e. decoded from a nil element
+		return []byte{}, nil
+	}
 	return maddr.Multiaddr.MarshalBinary()
 }
 
